@@ -366,15 +366,6 @@ Proof.
   exists (unravel s k). exact (Hb k Hk).
 Qed.
 
-Fixpoint has_float (s : space) : bool :=
-  match s with
-  | BoxF _ => true
-  | Tuple ss | Dict ss =>
-      (fix go (ss : list space) : bool :=
-         match ss with [] => false | s :: ss' => has_float s || go ss' end) ss
-  | _ => false
-  end.
-
 Lemma ravel_ok_float s : ravel_ok s = negb (has_float s).
 Proof.
   induction s as [n|n|nv|bs|bs|ss IH|ss IH] using space_ind'; try reflexivity.
